@@ -36,7 +36,14 @@ def run(tier, seed):
     vlib.run([exe, "random", str(seed), str(500 if quick else 20000), "ray", tr], timeout=1200)
     vlib.trace_leg(rep, "Trace_RayCast.tla", "Trace_RayCast.cfg", tr, "rays",
                    "random rays (generic, axis-aligned, diagonal, coincident, borders/corners/centres), casts reusing one object")
-    rep.assumptions += ["origin and end are lattice points (multiples of resolution/R, R in {2,4,8}); |coordinates| <= 8000 units for double",
+    # generic rays: decimal resolutions, grids of up to 2000 cells per axis, single and double precision, rays in high-index cells
+    tr = os.path.join(W, "genericray.ndjson")
+    vlib.run([exe, "random", str(seed), str(2000 if quick else 40000), "genericray", tr], timeout=1800)
+    vlib.trace_leg(rep, "Trace_RayCast.tla", "Trace_RayCast.cfg", tr, "genericray",
+                   "non-lattice rays on large decimal-resolution grids (float / double, 2D / 3D): start cell, end cell, face adjacency, no detour, "
+                   "every cell met by the segment, against the nominal grid in double")
+    rep.assumptions += ["generic leg: ray ends at least 5 % of a cell away from cell borders, boxes inflated by 0.5 % of a cell",
+                        "origin and end are lattice points (multiples of resolution/R, R in {2,4,8}); |coordinates| <= 8000 units for double",
                         "float: |coordinates| <= 50 units, so that distinct crossing parameters differ by far more than the accumulated float rounding",
                         "on equal crossing parameters either axis may advance; border points follow GridIndex's border freedom with decimal units",
                         "history independence: each cast on a reused object is compared with the same cast on a fresh object (endCast.same)"]
